@@ -33,7 +33,7 @@ ASSUMPTIONS = [
     "a callee that widens its parameter to 64 bit (as iN/uN as i64/u64) reports exactly the value it received",
     "literals not representable in the parameter type or of another kind than the parameter are left open by the property (error or call; state restored either way)",
     "machine explored for arities {0,6} and three breakpoint sets in the quick tier, arities 0..6 and all eight sets in the thorough tier; one fault per call",
-    "injected ptrace faults are diagnostic (model binding), never violations",
+    "an injected ptrace fault (one request of a call fails with ESRCH, nothing else changes) is a call that cannot be made: error and restored state are required; the comparison with the as-written machine is diagnostic",
 ]
 
 
@@ -506,6 +506,13 @@ class Cmp:
                 same = pv == obs
             self.drift["fault_like_model"] += same
             row["like_model"] = same
+            # the reference does not depend on which request failed: an answer (not a panic), and on an error the
+            # debuggee as it was
+            state = obs - {"report"}
+            if r["ok"] is None or (r["ok"] is False and state) or (r["ok"] and (state or d.get("log_grew") != 1)):
+                self.bad("state_not_restored_after_failed_request", "call", s, c, outcome=row["real_outcome"], broken=",".join(sorted(state)),
+                         expected="an error (or a completed call) and the debuggee as before", actual=row,
+                         case={"fn": c["fn"], "failed ptrace request no.": k, "request": r["failed_request"]})
         self.fault_table.append(row)
 
     # ---- vard / argd ---------------------------------------------------------------------------------
